@@ -3,7 +3,7 @@
 (* Trace validation of recorded executions of the emitted C against the    *)
 (* machine specification (code -> spec direction).                         *)
 (*                                                                         *)
-(* Cases[cid] = [M |-> exported machine, T |-> recorded trace] where the   *)
+(* Cases[cid] = [mi |-> index into Machines, T |-> recorded trace]; the     *)
 (* trace is the driver's NDJSON log, one event per API call:               *)
 (*   [ev |-> "start", rc, q, d, hooks]                                     *)
 (*   [ev |-> "feed", chunk |-> <<bytes>>, rc, adv (-1 = direct pointer),   *)
@@ -17,14 +17,14 @@
 (* A verdict is total: accepted, rejected (failing clauses named), or       *)
 (* inconclusive because evaluation left the modelled value range.           *)
 (***************************************************************************)
-EXTENDS NmfuMachine, Json
+EXTENDS NmfuMachine, Json, CasesData
 
-CONSTANT Cases
+\* Cases (sequence of [M, T]) is defined by the generated module CasesData
 
 VARIABLES cid, ei, bi, q, d, hk, verdict
 vars == <<cid, ei, bi, q, d, hk, verdict>>
 
-M == Cases[cid].M
+M == Machines[Cases[cid].mi]
 T == Cases[cid].T
 
 Report(kind, x) == PrintT("@@" \o ToJson([kind |-> kind, cid |-> cid] @@ x))
@@ -46,12 +46,13 @@ Finish(e, rc, adv, q2, d2, hooks) ==
       okq == q2 = e.q
       okd == d2 = e.d
       okh == HooksEq(hooks, e.hooks)
-      all == okrc /\ okadv /\ okq /\ okd /\ okh
+      okcap == CapInv(M, d2)          \* the capacity contract holds in the specification's own store
+      all == okrc /\ okadv /\ okq /\ okd /\ okh /\ okcap
   IN /\ q' = q2 /\ d' = d2 /\ hk' = <<>> /\ bi' = 0 /\ ei' = ei + 1 /\ cid' = cid
      /\ verdict' = IF ~all THEN "rejected" ELSE IF ei = Len(T) THEN "accepted" ELSE "run"
      /\ IF ~all
         THEN Report("REJECT", [ei |-> ei, ev |-> e.ev,
-                               clauses |-> [rc |-> okrc, adv |-> okadv, q |-> okq, d |-> okd, hooks |-> okh],
+                               clauses |-> [rc |-> okrc, adv |-> okadv, q |-> okq, d |-> okd, hooks |-> okh, cap |-> okcap],
                                spec |-> [rc |-> rc, adv |-> adv, q |-> q2, d |-> d2, hooks |-> hooks],
                                impl |-> [rc |-> e.rc, adv |-> e.adv, q |-> e.q, d |-> e.d, hooks |-> e.hooks]])
         ELSE IF ei = Len(T) THEN Report("ACCEPT", [n |-> Len(T)]) ELSE TRUE
